@@ -43,7 +43,7 @@ CodeFrags ==
 \* inside a quoted string literal
 StrFrags(q) ==
     {F(x, "") : x \in {"x", " ", "U+00E9;", "U+1F600;", "\\n", "\\u{41}", "\\u{", "\\u{110000}", "\\x4", "\\x41", "\\xff", "\\\n  ", "\\'", "\\\"",
-                       "\\{", "}", "\n", "$", "#", "\\", "\\q", "\\U+00E9;", "\\U+65E5;x", "\\u{fffffffff}", "\\u{ffffffff}"}}
+                       "\\{", "}", "\n", "\r\n", "\\\r\n ", "$", "#", "\\", "\\q", "\\U+00E9;", "\\U+65E5;x", "\\u{fffffffff}", "\\u{ffffffff}"}}
     \cup {F("{", "push:tmpl")}
     \cup {F("'", IF q = "sq" THEN "pop" ELSE ""), F("\"", IF q = "dq" THEN "pop" ELSE "")}
 
@@ -51,9 +51,9 @@ StrFrags(q) ==
 FmtFrags == {F(x, "") : x \in {"_", "<", "^", ">", "0", "8", ".", "2", "x", "?", "e", "U+00E9;", "U+1F600;", "U+0301;", "{", "\n", "'", " ", ":", "-"}}
             \cup {F("}", "pop")}
 
-RawFrags == {F(x, "") : x \in {"x", "'", "{", "\\", "\n", "\"", "#", "U+00E9;"}} \cup {F("'#", "pop")}
+RawFrags == {F(x, "") : x \in {"x", "'", "{", "\\", "\n", "\r\n", "\"", "#", "U+00E9;"}} \cup {F("'#", "pop")}
 
-CmFrags == {F(x, "") : x \in {"x", "\n", "-", "#", "U+00E9;", "'"}} \cup {F("#-", "push:cm"), F("-#", "pop")}
+CmFrags == {F(x, "") : x \in {"x", "\n", "\r\n", "\r", "-", "#", "U+00E9;", "'"}} \cup {F("#-", "push:cm"), F("-#", "pop")}
 
 Frags(mode) ==
     CASE mode \in {"code", "map", "paren"} -> CodeFrags
